@@ -1,7 +1,7 @@
 from __future__ import annotations
 
 from itertools import product
-from typing import Iterable, Tuple
+from typing import Iterable, Optional, Tuple
 
 from pydantic import BaseModel
 
@@ -72,6 +72,9 @@ class WeaponPotentialOptimizer(BaseModel):
     tiers: Tuple[PotentialTier, PotentialTier, PotentialTier]
     damage_logic: DamageLogic
     armor: int = 300
+    # tiers of the sub-weapon and of the emblem; the weapon's tiers when not given
+    sub_weapon_tiers: Optional[Tuple[PotentialTier, PotentialTier, PotentialTier]] = None
+    emblem_tiers: Optional[Tuple[PotentialTier, PotentialTier, PotentialTier]] = None
 
     def get_useful_candidates(self, tier):
         PROTECTION_STAT = Stat(ignored_defence=90)
@@ -131,10 +134,10 @@ class WeaponPotentialOptimizer(BaseModel):
 
         weapon_potential_candidates = list(self.get_potential_candidates(self.tiers))
         sub_weapon_potential_candidates = list(
-            self.get_potential_candidates(self.tiers)
+            self.get_potential_candidates(self.sub_weapon_tiers or self.tiers)
         )
         emblem_potential_candidates = list(
-            self.get_potential_candidates(self.tiers, emblem=True)
+            self.get_potential_candidates(self.emblem_tiers or self.tiers, emblem=True)
         )
 
         for weapon_potential in weapon_potential_candidates:
